@@ -53,7 +53,9 @@ fn spell(path: &str, form: Form) -> String {
     }
 }
 
-const MEDIA: &[&str] = &["", "screen", "(w:1px)", "screen and (w:75rpx)"];
+const MEDIA: &[&str] = &["", "screen", "(w:1px)", "screen and (w:75rpx)", "all and (w:1px)", "all, print", "not all", "only screen and (color), print and (w:2px)"];
+/// layer conditions: none, a plain name, a dotted name, the bare keyword
+const LAYERS: &[(&str, &str)] = &[("", ""), (" layer(x)", "x"), (" layer(a.b.c)", "a.b.c"), (" layer", "")];
 const POSITIONS: &[(&str, &str)] = &[
     ("first", ""),
     ("after-import", "@import \"z\";"),
@@ -88,7 +90,7 @@ struct Case {
     text: String,
     path: String,
     form: Form,
-    layer: bool,
+    layer: usize,
     supports: bool,
     media: usize,
     pos: usize,
@@ -96,14 +98,12 @@ struct Case {
     trailing_rule: bool,
 }
 
-fn make_case(path: &str, form: Form, layer: bool, supports: bool, media: usize, pos: usize, sign: bool, trailing_rule: bool) -> Case {
+fn make_case(path: &str, form: Form, layer: usize, supports: bool, media: usize, pos: usize, sign: bool, trailing_rule: bool) -> Case {
     let mut t = String::new();
     t.push_str(POSITIONS[pos].1);
     t.push_str("@import ");
     t.push_str(&spell(path, form));
-    if layer {
-        t.push_str(" layer(x)");
-    }
+    t.push_str(LAYERS[layer].0);
     if supports {
         t.push_str(" supports(d:v)");
     }
@@ -148,7 +148,7 @@ fn check(c: &Case) -> Result<Option<Vec<(String, String)>>, String> {
         return Ok(None);
     }
     let opts = Opts { import_sign: if c.sign { Some("I".into()) } else { None }, ..Default::default() };
-    let run = css::transform("i.wxss", &c.text, &opts, 0, false).map_err(|(s, m)| format!("{}: {}", s, m))?;
+    let run = css::transform("i.wxss", &c.text, &opts, 0, false).map_err(|(s, m)| crate::common::panic_err(&c.text, &opts.to_json(), &s, &m))?;
     let act: Vec<T> = nonws(&run.normal);
     let mut problems = vec![];
     let mut exp: Vec<T> = vec![];
@@ -161,9 +161,9 @@ fn check(c: &Case) -> Result<Option<Vec<(String, String)>>, String> {
             exp.extend(passthrough(POSITIONS[c.pos].1, &opts));
         }
         let mut closers = 0;
-        if c.layer {
+        if c.layer != 0 {
             exp.push(T::AtKw("layer".into()));
-            exp.push(T::Ident("x".into()));
+            exp.extend(passthrough(LAYERS[c.layer].1, &opts));
             exp.push(T::OpenCurly);
             closers += 1;
         }
@@ -244,12 +244,12 @@ fn case_of(i: u64, maxlen: u32) -> Case {
     k /= 2;
     let pos = (k % POSITIONS.len() as u64) as usize;
     k /= POSITIONS.len() as u64;
-    let media = (k % 4) as usize;
-    k /= 4;
+    let media = (k % MEDIA.len() as u64) as usize;
+    k /= MEDIA.len() as u64;
     let supports = k % 2 == 1;
     k /= 2;
-    let layer = k % 2 == 1;
-    k /= 2;
+    let layer = (k % LAYERS.len() as u64) as usize;
+    k /= LAYERS.len() as u64;
     let form = FORMS[(k % 4) as usize];
     k /= 4;
     let idx = str_unrank(k, SIGMA_P.len() as u64, maxlen);
@@ -261,7 +261,7 @@ pub fn explore(thorough: bool, result_path: &str) {
     silence_panics();
     let maxlen = if thorough { 4 } else { 3 };
     let npaths = str_space_size(SIGMA_P.len() as u64, maxlen);
-    let per_path = 4 * 2 * 2 * 4 * POSITIONS.len() as u64 * 2 * 2;
+    let per_path = 4 * LAYERS.len() as u64 * 2 * MEDIA.len() as u64 * POSITIONS.len() as u64 * 2 * 2;
     // quick: paths of length <= 3 with the full condition cube only for length <= 2; longer paths with a reduced cube
     let full = if thorough { str_space_size(SIGMA_P.len() as u64, 3) } else { str_space_size(SIGMA_P.len() as u64, 2) };
     let reduced_per_path: u64 = 4 * 2; // form x sign, with one fixed condition set
@@ -275,11 +275,11 @@ pub fn explore(thorough: bool, result_path: &str) {
             let r = k % reduced_per_path;
             let idx = str_unrank(p, SIGMA_P.len() as u64, maxlen);
             let path: String = idx.iter().map(|x| SIGMA_P[*x]).collect();
-            make_case(&path, FORMS[(r % 4) as usize], true, false, 3, if r / 4 == 0 { 0 } else { 2 }, r / 4 == 0 || true, false)
+            make_case(&path, FORMS[(r % 4) as usize], 1, false, 3, if r / 4 == 0 { 0 } else { 2 }, r / 4 == 0 || true, false)
         };
         rep.transitions += 1;
         match check(&c) {
-            Err(m) => rep.machinery_errors.push(format!("compiler panicked on {:?}: {}", c.text, m)),
+            Err(m) => rep.engine_error("C18", m),
             Ok(None) => rep.count("skipped:spelling-does-not-denote-the-path", 1),
             Ok(Some(problems)) => {
                 rep.states += 1;
@@ -305,7 +305,7 @@ pub fn explore(thorough: bool, result_path: &str) {
     let res = rep.to_result(
         "C18",
         "every import path over the 18-symbol alphabet up to the stated length, in string / url forms, with every combination of layer() / supports() / media conditions at every listed position, with and without an import sign; non-trivial = an import sign is configured; distinct = distinct input text",
-        json!({"path_alphabet": SIGMA_P, "path_length_full_cube": if thorough {3} else {2}, "path_length_reduced_cube": maxlen, "forms": ["\"…\"", "'…'", "url(…)", "url(\"…\")"], "media": MEDIA, "positions": POSITIONS.iter().map(|p| p.0).collect::<Vec<_>>()}),
+        json!({"path_alphabet": SIGMA_P, "path_length_full_cube": if thorough {3} else {2}, "path_length_reduced_cube": maxlen, "forms": ["\"…\"", "'…'", "url(…)", "url(\"…\")"], "media": MEDIA, "layer_conditions": LAYERS.iter().map(|l| l.0).collect::<Vec<_>>(), "positions": POSITIONS.iter().map(|p| p.0).collect::<Vec<_>>()}),
         true,
         &["cssparser tokenizer gives the path a spelling denotes and the tokens of the output", "an independent percent-decoder recovers the path from the placeholder"],
         Map::new(),
@@ -321,7 +321,7 @@ pub fn replay(v: &Value) -> Value {
         "UrlDq" => Form::UrlDq,
         _ => Form::Dq,
     };
-    let c = make_case(v["path"].as_str().unwrap(), form, v["layer"].as_bool().unwrap(), v["supports"].as_bool().unwrap(), v["media"].as_u64().unwrap() as usize, v["pos"].as_u64().unwrap() as usize, v["sign"].as_bool().unwrap(), v["trailing"].as_bool().unwrap());
+    let c = make_case(v["path"].as_str().unwrap(), form, v["layer"].as_u64().unwrap() as usize, v["supports"].as_bool().unwrap(), v["media"].as_u64().unwrap() as usize, v["pos"].as_u64().unwrap() as usize, v["sign"].as_bool().unwrap(), v["trailing"].as_bool().unwrap());
     let go = || match check(&c) {
         Ok(Some(p)) => p.into_iter().map(|x| format!("{}: {}", x.0, x.1)).collect::<Vec<_>>(),
         Ok(None) => vec![],
